@@ -1,6 +1,6 @@
 ---------------------------- MODULE IntegrityOps ----------------------------
 (* X05: biotite.structure integrity checks (integrity.py), repair functions (repair.py) and
-   the filters of filter.py that are not altloc filters.
+   the filters of filter.py.
 
    An atom array (or stack: the annotations are shared by all models) is abstracted to
      rows   sequence of  <<chain_id, res_id, ins_code, res_name, atom_name, element, hetero, atom_id>>
@@ -70,9 +70,9 @@ StripDigits(t) == SelectSeq(t, LAMBDA ch : ~IsDigit(ch))
 \* decimal digits of k >= 0  (str(k))
 RECURSIVE Dec(_)
 Dec(k) == IF k < 10 THEN <<DigitChars[k + 1]>> ELSE Append(Dec(k \div 10), DigitChars[(k % 10) + 1])
-\* the characters the model knows how to classify (ASCII letters, digits, prime, star, blank)
+\* the characters the model knows how to classify (ASCII letters, digits, prime, star, blank, underscore, dot, question mark)
 KnownChar(ch) == IsDigit(ch) \/ (\E i \in 1..26 : LowerChars[i] = ch \/ UpperChars[i] = ch)
-                 \/ ch \in {"'", "*", " ", "_"}
+                 \/ ch \in {"'", "*", " ", "_", ".", "?"}
 Dom_Text(t) == \A k \in DOMAIN t : KnownChar(t[k])
 
 (* ================================================================== integrity.py *)
@@ -262,6 +262,60 @@ InterImpl(A, B, cats) ==
   IN [i \in 1..Len(A) |-> \E j \in 1..Len(B) : Sub(i)[j]]
 Op_FilterIntersection(A, hasA, B, hasB) == R("ok", InterImpl(A, B, CommonCats(hasA, hasB)), "bool")
 
+(* filter_first_altloc(atoms, altloc_ids) / filter_highest_occupancy_altloc(atoms, altloc_ids,
+   occupancies): per residue, keep the atoms without alternate location id and those of ONE id:
+   the first letter id appearing in the residue / the letter id with the highest occupancy sum
+   (ties: the first in sorted order, because the code requires a strictly higher sum).
+   An altloc id is a Text of at most one character; occupancies are integers in units of 1/4.  *)
+NoAltIds == {<<".">>, <<"?">>, <<" ">>, <<>>}
+IsAlpha(ch) == \E i \in 1..26 : LowerChars[i] = ch \/ UpperChars[i] = ch
+IsLetterId(t) == Len(t) >= 1 /\ \A k \in DOMAIN t : IsAlpha(t[k])                  \* str.isalpha
+CharRank(ch) == IF \E i \in 1..26 : UpperChars[i] = ch THEN CHOOSE i \in 1..26 : UpperChars[i] = ch
+                ELSE 26 + (CHOOSE i \in 1..26 : LowerChars[i] = ch)                \* code point order
+ResLo(keys, i) == Max({s \in ResStartSet(keys) : s <= i})
+ResHi(keys, i) == Min({Len(keys)} \cup {s \in ResStartSet(keys) : s > i})          \* exclusive
+LetterAtoms(keys, alts, i) == {j \in (ResLo(keys, i) + 1)..ResHi(keys, i) : IsLetterId(alts[j])}  \* 1-based
+FirstAltDecl(keys, alts) ==
+  [k \in 1..Len(keys) |->
+     \/ alts[k] \in NoAltIds
+     \/ LET L == LetterAtoms(keys, alts, k - 1) IN L # {} /\ alts[k] = alts[Min(L)]]
+OccSum(alts, occ, S, id) == SumSeq([j \in 1..Len(alts) |-> IF j \in S /\ alts[j] = id THEN occ[j] ELSE 0])
+HighestDecl(keys, alts, occ) ==
+  [k \in 1..Len(keys) |->
+     \/ alts[k] \in NoAltIds
+     \/ LET L == LetterAtoms(keys, alts, k - 1)
+            ids == {alts[j] : j \in L}
+            Better(a, b) == \/ OccSum(alts, occ, L, a) > OccSum(alts, occ, L, b)
+                            \/ (OccSum(alts, occ, L, a) = OccSum(alts, occ, L, b) /\ CharRank(a[1]) <= CharRank(b[1]))
+        IN L # {} /\ alts[k] = (CHOOSE a \in ids : \A b \in ids : Better(a, b))]
+\* the code: one pass over get_residue_starts(atoms, add_exclusive_stop=True)
+AltLoop(keys, alts, Pick(_, _)) ==
+  LET ss == ResStartsImpl(keys) \o (IF Len(keys) = 0 THEN <<>> ELSE <<Len(keys)>>)
+      base == [k \in 1..Len(keys) |-> alts[k] \in NoAltIds]            \* np.isin(altloc_ids, [".", "?", " ", ""])
+  IN FoldLeft(LAMBDA m, p :
+                LET start == ss[p]  stop == ss[p + 1]
+                    letters == SelectSeq(SubSeq(alts, start + 1, stop), IsLetterId) IN
+                IF Len(letters) = 0 THEN m
+                ELSE LET id == Pick(start, stop) IN
+                     [k \in DOMAIN m |-> IF k > start /\ k <= stop THEN m[k] \/ alts[k] = id ELSE m[k]],
+              base, [p \in 1..(Len(ss) - 1) |-> p])
+FirstAltImpl(keys, alts) ==
+  AltLoop(keys, alts, LAMBDA start, stop : SelectSeq(SubSeq(alts, start + 1, stop), IsLetterId)[1])
+HighestImpl(keys, alts, occ) ==
+  AltLoop(keys, alts,
+          LAMBDA start, stop :
+            LET S == (start + 1)..stop
+                ids == SetToSortSeq({alts[j] : j \in {q \in S : IsLetterId(alts[q])}},
+                                    LAMBDA a, b : CharRank(a[1]) < CharRank(b[1]))
+                best == FoldLeft(LAMBDA acc, id : IF OccSum(alts, occ, S, id) > acc[1]
+                                                  THEN <<OccSum(alts, occ, S, id), id>> ELSE acc,
+                                 <<-1, <<>>>>, ids)
+            IN best[2])
+Dom_Altloc(n, alts) == Len(alts) = n /\ \A k \in DOMAIN alts : Len(alts[k]) <= 1 /\ Dom_Text(alts[k])
+Dom_Occ(n, occ) == Len(occ) = n /\ \A k \in DOMAIN occ : occ[k] >= 0
+Op_FilterFirstAltloc(keys, alts) == R("ok", FirstAltImpl(keys, alts), "bool")
+Op_FilterHighestOccupancy(keys, alts, occ) == R("ok", HighestImpl(keys, alts, occ), "bool")
+
 (* ================================================================== repair.py *)
 (* create_continuous_res_ids(atoms, restart_each_chain=True): residue ids that grow by one at
    every residue start; with restart_each_chain they restart at 1 at every chain start.      *)
@@ -358,7 +412,8 @@ Op_NamesRoundTrip(elems) ==
 Ops == {"check_atom_id_continuity", "check_res_id_continuity", "check_duplicate_atoms",
         "filter_linear_bond_continuity", "check_linear_continuity", "check_backbone_continuity",
         "filter_polymer", "filter_intersection", "create_continuous_res_ids", "repair_res_ids",
-        "infer_elements", "create_atom_names", "names_roundtrip"} \cup AtomFilters
+        "infer_elements", "create_atom_names", "names_roundtrip",
+        "filter_first_altloc", "filter_highest_occupancy_altloc"} \cup AtomFilters
 LimOf(a) == IF Len(a) = 0 THEN DefaultLim ELSE a[1]
 Apply(op, inp, a) ==
   CASE op = "check_atom_id_continuity" -> Op_CheckAtomId(inp.rows, inp.hasId)
@@ -378,6 +433,8 @@ Apply(op, inp, a) ==
     [] op = "infer_elements"    -> Op_InferElements(Column(inp.rows, 5))
     [] op = "create_atom_names" -> Op_CreateAtomNames(Column(inp.rows, 6))
     [] op = "names_roundtrip"   -> Op_NamesRoundTrip(Column(inp.rows, 6))
+    [] op = "filter_first_altloc" -> Op_FilterFirstAltloc(KeysOf(inp.rows), a[1])
+    [] op = "filter_highest_occupancy_altloc" -> Op_FilterHighestOccupancy(KeysOf(inp.rows), a[1], a[2])
     [] op \in AtomFilters       -> Op_Filter(op, inp.rows)
 
 \* the domain the check quantifies over, per call (generators of S2 and S3 stay inside)
@@ -388,6 +445,9 @@ Dom_Call(op, inp, a) ==
     [] op = "filter_polymer" -> Dom_Polymer(KeysOf(inp.rows), IF Len(a) = 0 THEN DefaultMinSize ELSE a[1])
     [] op = "infer_elements" -> Dom_Names(Column(inp.rows, 5))
     [] op \in {"create_atom_names", "names_roundtrip"} -> Dom_Elements(Column(inp.rows, 6))
+    [] op = "filter_first_altloc" -> Len(a) = 1 /\ Dom_Altloc(Len(inp.rows), a[1])
+    [] op = "filter_highest_occupancy_altloc" ->
+         Len(a) = 2 /\ Dom_Altloc(Len(inp.rows), a[1]) /\ Dom_Occ(Len(inp.rows), a[2])
     [] OTHER -> TRUE
 
 (* ------------------------------------------------------------------ live arrays (recorded sessions)
@@ -504,6 +564,30 @@ Law_Names(elems) ==
   /\ (\A k \in DOMAIN elems : elems[k] = <<>> \/ ~IsDigit(elems[k][Len(elems[k])])) =>
        \A i, j \in DOMAIN nm : nm[i] = nm[j] => i = j
   /\ \A k \in DOMAIN elems : RoundTripSafe(elems[k]) => GuessImpl(nm[k]) = elems[k]
+
+\* altloc filters: code-shaped = per-atom; atoms without id are kept; of the letter ids of a residue
+\* exactly one survives; with a single letter id per residue both filters keep every letter atom;
+\* filtering the filtered array changes nothing when every id is "no id" or a letter
+Dom_AltIdsClean(alts) == \A k \in DOMAIN alts : alts[k] \in NoAltIds \/ IsLetterId(alts[k])
+Law_Altloc(keys, alts, occ) ==
+  LET f == FirstAltDecl(keys, alts)  h == HighestDecl(keys, alts, occ)
+      Survivors(m, i) == {alts[j] : j \in {q \in LetterAtoms(keys, alts, i) : m[q]}}
+      kept == WhereTrue(f)
+  IN /\ FirstAltImpl(keys, alts) = f /\ HighestImpl(keys, alts, occ) = h
+     /\ \A k \in DOMAIN alts : alts[k] \in NoAltIds => f[k] /\ h[k]
+     /\ \A i \in 0..(Len(keys) - 1) :
+          LET n == IF LetterAtoms(keys, alts, i) = {} THEN 0 ELSE 1 IN
+          /\ Cardinality(Survivors(f, i)) = n /\ Cardinality(Survivors(h, i)) = n
+          /\ Cardinality({alts[j] : j \in LetterAtoms(keys, alts, i)}) = 1 =>
+               \A j \in LetterAtoms(keys, alts, i) : f[j] /\ h[j]
+     /\ Dom_AltIdsClean(alts) =>
+          \A k \in DOMAIN kept : FirstAltDecl(Gather(keys, kept), Gather(alts, kept))[k]
+\* docstring example: one residue, CA without id, CB twice with ids A and B; occupancies 1.0 / 0.1 / 0.9
+\* (here 4/4, 1/4, 3/4)
+ASSUME LET k == <<<<<<"A">>, 1, <<>>, <<"X">>>>, <<<<"A">>, 1, <<>>, <<"X">>>>, <<<<"A">>, 1, <<>>, <<"X">>>>>>
+           al == <<<<".">>, <<"A">>, <<"B">>>> IN
+       /\ FirstAltImpl(k, al) = <<TRUE, TRUE, FALSE>>
+       /\ HighestImpl(k, al, <<4, 1, 3>>) = <<TRUE, FALSE, TRUE>>
 
 (* examples of the docstrings *)
 ASSUME [k \in 1..7 |-> GuessImpl(<<<<"C", "A">>, <<"C">>, <<"C", "1">>, <<"O", "D", "1">>, <<"H", "D", "2", "1">>,
